@@ -104,7 +104,9 @@ pub fn run(desc: &Value, ctx: &Ctx) -> CaseOut {
     let mut scenarios = 0u64;
     macro_rules! judge {
         ($scn:expr, $path:expr, $case:expr, $created:expr) => {{
-            let plan = plan_for($case, Some($created));
+            let mut plan = plan_for($case, Some($created));
+            // every other scenario walks packs and contents from the highest pack id down
+            plan.reverse = scenarios % 2 == 1;
             let got = dump_container($path, &plan);
             let exp = expected_dump($case, $created, &plan);
             let diffs = diff(&exp, &got, keep_all);
